@@ -4,7 +4,7 @@ from __future__ import annotations
 import numpy
 
 from . import arr as A
-from .core import Failure
+from .core import sstr, Failure
 from .ref import commands as R
 from .ref.val import Unstable, Undefined
 
@@ -63,9 +63,9 @@ def judge(o, rec=None, check_values=True, stats=None):
                 return [Failure("%s|str(%s)_raises:%s" % (o.sig, o.expect, type(exc).__name__), repr(exc))]
             return []
         got = "ok" if o.status == "ok" else A.exc_name(o.result)
-        return [Failure("%s|expected:%s|got:%s" % (o.sig, o.expect, got), str(o.result)[:300])]
+        return [Failure("%s|expected:%s|got:%s" % (o.sig, o.expect, got), sstr(o.result)[:300])]
     if o.status == "err":
-        return [Failure("%s|raises:%s" % (o.sig, A.exc_name(o.result)), str(o.result)[:300])]
+        return [Failure("%s|raises:%s" % (o.sig, A.exc_name(o.result)), sstr(o.result)[:300])]
     return A.compare(o.result, o.ref, o.arrays[0].shape, o.sig, check_values=check_values, stats=stats)
 
 
